@@ -39,7 +39,7 @@ CLAIMS["C06"] = dict(
 
 
 CLAIMS["C12"] = dict(
-    text="Proof (unbounded, every syntax tree satisfying the class typing wfAST, every flag combination a caller can pass) that each of the 27 byteCode methods, condition, discardingWhile, pushingWhile, ByteCode and ByteCodeNoStck satisfies one type-level contract K whatever strategy the flags select: the code and data segments only grow (existing entries unchanged), every emitted instruction satisfies wfInstr (operand kinds the VM can fetch, data-segment indices in range, MOV/INC destinations assignable), the returned operand descriptor occupies only the requested field, is never an immediate, is a temp-register operand only where the caller can accept one (OpDepth>0 / AcceptTemp / Discard, never under ForbidTemp), an expression always yields a value descriptor, and a statement yields none only when its result is dropped, returned or inside a function. Every if/if-else/while variant keeps the conditional jump that tests its condition (cond_tested), so the condition is type-checked in every position. The same-operand shortcut compares operands structurally without panicking.",
+    text="Proof (unbounded, every syntax tree satisfying the class typing wfAST, every flag combination a caller can pass) that each of the 27 byteCode methods, condition, discardingWhile, pushingWhile, ByteCode and ByteCodeNoStck satisfies one type-level contract K whatever strategy the flags select: the code and data segments only grow (existing entries unchanged), every emitted instruction satisfies wfInstr (operand kinds the VM can fetch, data-segment indices in range, MOV/INC destinations assignable), the returned operand descriptor occupies only the requested field, is never an immediate, is a temp-register operand only where the caller can accept one (OpDepth>0 / AcceptTemp / Discard, never under ForbidTemp), an expression always yields a value descriptor, and a statement yields none only when its result is dropped, returned or inside a function. Every if/if-else/while variant keeps the conditional jump that tests its condition (cond_tested), so the condition is type-checked in every position. The same-operand shortcut compares operands structurally without panicking. Code-generation choices that the property names are pinned by obligations of their own: the operator table of BinOp equals the documented one and the left operand is compiled into field 1 (the VM computes src1 op src0); condition() emits jump-if-false exactly when (false branch wanted) differs from (condition negated), and every if/while pairs each test with the code that follows it; the increment instruction is used only for `x = x + 1` / `x = 1 + x`; a value-producing while yields the initial nil on zero iterations also in returning position and pops the previous iteration's value; HasCall is exact.",
     note="Not decided: equality of run-time values across strategies (that needs the VM semantics composed with the emitted code; only the structural contract K and the VM-side interface are proved). Assumed: wfAST (the parser and STRewrite only build well-typed trees: expression slots hold expression nodes) via one-level unfolding assumptions per node type; the record view of instruction words (justified bit-level in types/bytecode, C15); HasCall/Constant/Name are trusted pure. Operand-range refusals of EncodeSrc at call sites are panics, not errors (finding D15b, see DESIGN.md), and are outside this check.",
     ref="DESIGN.md section 4 C12 and change log")
 CLAIMS["C05"] = dict(
@@ -47,7 +47,7 @@ CLAIMS["C05"] = dict(
     note="Assumed and listed in the evidence: the run-time stack discipline (preconditions of the memory package at VM call sites), typing of data-segment entries used as global names, 'cannot convert value to array', 'can't pop instruction pointer', 'context not found' (these depend on whole-program invariants of compiled code, not on one instruction), nil-dereference/index obligations inside vm.Run and dumpStack other than the report slice, EncodeSrc range refusal by panic at compiler call sites, dead `RET <no value>` instructions emitted after always-returning statements, builtin.Load trees, Go stack exhaustion and memory exhaustion.",
     ref="DESIGN.md section 4 C05 and change log")
 CLAIMS["C09"] = dict(
-    text="Proof (unbounded) of the residue-relevant function contracts: exact stack-pointer / frame / closure-stack deltas of every memory method (Push +1, Pop -1, PushFrame/PopFrame inverse on sp and fp, ResetSP, Reset); dumpStack leaves the main memory reset, the main ip at the end of code and no registered context; DCONT and RCONT leave no context of the destroyed id range registered (loop invariants over the finite-map model of the children table); the compiler gives nested for loops disjoint context ids and hands the enclosing loops' CtxLo to the body so that a return deletes all of them (outer_lo_inherited), and every conditional statement consumes its condition (cond_tested).",
+    text="Proof (unbounded) of the residue-relevant function contracts: exact stack-pointer / frame / closure-stack deltas of every memory method (Push +1, Pop -1, PushFrame/PopFrame inverse on sp and fp, ResetSP, Reset); dumpStack leaves the main memory reset, the main ip at the end of code and no registered context; DCONT and RCONT leave no context of the destroyed id range registered (loop invariants over the finite-map model of the children table); the compiler gives nested for loops disjoint context ids and hands the enclosing loops' CtxLo to the body so that a return deletes all of them (outer_lo_inherited), and every conditional statement consumes its condition (cond_tested); a statement that is not the last of its block leaves nothing on the stack, a discarded if/while/for body value is popped before the next iteration or the end of the statement, a value-producing for leaves exactly one value per iteration (guards at the emission sites of Block, If, discardingWhile, pushingWhile, For).",
     note="Not decided: the whole-statement stack balance (that the code emitted for a statement pushes exactly one value or none on every path) - it needs a stack-effect abstraction of instruction sequences that the contracts do not have; capacity (len(stack)) growth. Assumed: tree-shaped context structure in deleteContext (trusted contract), intmap finite-map semantics.",
     ref="DESIGN.md section 4 C09 and change log")
 CLAIMS["C10"] = dict(
